@@ -63,8 +63,12 @@ def run(m):
         if p.returncode != 0:
             rec['status'] = 'apply-failed'
             return rec
-        t = subprocess.run(['go', 'test', '-vet=off', '-count=1', '-failfast', '-timeout', '120s', '.', './jd'],
-                           cwd=os.path.join(s, 'v2'), capture_output=True, text=True, env=ENV)
+        if m['file'].startswith('v2/'):
+            t = subprocess.run(['go', 'test', '-vet=off', '-count=1', '-failfast', '-timeout', '120s', '.', './jd'],
+                               cwd=os.path.join(s, 'v2'), capture_output=True, text=True, env=ENV)
+        else:
+            t = subprocess.run(['go', 'test', '-vet=off', '-count=1', '-failfast', '-timeout', '120s', '.', './lib'],
+                               cwd=s, capture_output=True, text=True, env=ENV)
         if t.returncode != 0:
             rec['status'] = 'nobuild' if '[build failed]' in t.stdout else 'killed'
             return rec
